@@ -707,10 +707,7 @@ def _execute_roundtrip(run):
         if forced:
             lp0 = tap2.records[0].logprobs.double().numpy()
             h0 = [ref_entropy(lp0[i]) for i in range(R)]
-        o1 = dict(out1)
-        if sm_full is not None and plan["ret_sum"] is False:
-            pass
-        _compare(run, scope, vname, o1, out2, forced, plan, h0)
+        _compare(run, scope, vname, out1, out2, forced, plan, h0)
         run.log.add("run2", vname, _hexes(out2["log_likelihood"]))
         run.probe({"same": "roundtrip_same", "expanded": "roundtrip_expanded",
                    "num_samples": "roundtrip_num_samples"}[vname])
